@@ -21,7 +21,9 @@ def gen_value(r, depth):
     if x == 4:
         return r.below(2000) - 1000
     if x == 5:
-        return r.pick([0.5, -1.25, 1e10 + 0.5, 3.75, 1234.5])
+        # fractions, and integral floats beyond i64 (from 1e21 on JavaScript prints them with an exponent, so the text the script
+        # sees parses as a float again): they stay floats
+        return r.pick([0.5, -1.25, 1e10 + 0.5, 3.75, 1234.5, 1e300, -2.5e25, 1.5e22])
     if x in (6, 7):
         return r.pick(['', 'abc', 'é ü', 'a"b', 'line1\nline2', '{x}', '日本'])
     if x in (8, 9):
@@ -51,6 +53,8 @@ def num_equal(a, b):
         # identical, integers stay integers (C14_identical); an integral float may come back as the integer (C14_same_value)
         if isinstance(b, int) and not isinstance(a, int):
             return False
+        if isinstance(a, float) and isinstance(b, float):
+            return a == b
         return float(a) == float(b) and (abs(a) <= 2**53)
     if isinstance(a, list) and isinstance(b, list):
         return len(a) == len(b) and all(num_equal(x, y) for x, y in zip(a, b))
